@@ -205,7 +205,15 @@ def gen_cases(rng, tier):
             elif k < 0.68:
                 kind = "pat:class"
                 idx = [i for i, t in enumerate(toks) if t in names]
-                if idx:
+                if idx and rng.random() < 0.35:
+                    # class alternatives around the base class itself: every name of the alternative is checked, whichever
+                    # comes first (seeded change C17-11: the names after ASTNode were skipped)
+                    bad = rng.choice(UNKNOWN + NONNODE)
+                    alt = rng.choice([["ASTNode", "|", bad], [rng.choice(names), "|", "ASTNode", "|", bad], [bad, "|", "ASTNode"],
+                                      ["ASTNode", "|", rng.choice(names)], [rng.choice(names), "|", "ASTNode"]])
+                    j = rng.choice(idx)
+                    toks[j:j + 1] = alt
+                elif idx:
                     toks[rng.choice(idx)] = rng.choice(UNKNOWN + NONNODE + ["ASTNode"])
             elif k < 0.82:
                 kind = "pat:string"
@@ -288,6 +296,15 @@ def probe_late_defined_class():
     ok0, _ = validate_pattern(f"({name})")
     if ok0:
         bad = "unknown-class-accepted"
+    from pyoak.match.error import ASTPatternDefinitionError
+    from pyoak.match.pattern import MultiPatternMatcher, NodeMatcher
+    if NodeMatcher.from_pattern(f"({name})")[0] is not None:       # (also leaves whatever a rejection leaves behind)
+        bad = "unknown-class-accepted"
+    try:
+        MultiPatternMatcher([("r", f"({name})")])
+        bad = "unknown-class-accepted"
+    except ASTPatternDefinitionError:
+        pass
     m = types.ModuleType("verif_c17_late")
     sys.modules[m.__name__] = m
     exec(compile("from dataclasses import dataclass\nfrom pyoak.node import ASTNode\n"
@@ -302,6 +319,14 @@ def probe_late_defined_class():
     ok1, _ = validate_pattern(f"({name})")
     if not ok1:
         bad = bad or "late-defined-class-still-rejected(pattern)"
+    m1, _ = NodeMatcher.from_pattern(f"({name})")      # seeded change C08-10: rejections remembered per pattern text
+    if m1 is None or not m1.match(inst)[0]:
+        bad = bad or "late-defined-class-still-rejected(from_pattern)"
+    try:
+        if MultiPatternMatcher([("r", f"({name})")]).match(inst) is None:
+            bad = bad or "late-defined-class-does-not-match(multi)"
+    except ASTPatternDefinitionError:
+        bad = bad or "late-defined-class-still-rejected(multi)"
     _LATE["bad"] = bad
     return bad
 
